@@ -33,19 +33,25 @@ pub open spec fn xscan(chars: Seq<char>, i: int, st: XSt, vars: Map<String, Stri
 {
     if i >= chars.len() || i < 0 { st } else { xscan(chars, i + 1, xstep(st, chars[i], vars), vars) }
 }
-/// (text, single_type) after the end-of-argument fix-ups
-pub open spec fn xfinish(st: XSt) -> (Seq<char>, bool) {
-    if st.force_push { (st.vs.push('\\'), st.single) }
+/// the text after the end-of-argument fix-ups
+pub open spec fn xfinish(st: XSt) -> Seq<char> {
+    if st.force_push { st.vs.push('\\') }
     else if st.key.len() > 0 {
-        (if st.pi > 0 || st.found_prefix { st.vs + pfx(st.single, st.found_prefix) + st.key } else { st.vs + st.key }, st.single)
-    } else if st.pi == 1 { (st.vs + pfx(st.single, false), true) }
-    else { (st.vs, st.single) }
+        if st.pi > 0 || st.found_prefix { st.vs + pfx(st.single, st.found_prefix) + st.key } else { st.vs + st.key }
+    } else if st.pi == 1 { st.vs + pfx(st.single, false) }
+    else { st.vs }
+}
+/// C02 statement: "only an argument WRITTEN AS %{name} may expand to several arguments"
+pub open spec fn spread_form(value: Seq<char>) -> bool {
+    value.len() >= 3 && value[0] == '%' && value[1] == '{' && value[value.len() - 1] == '}'
+    && forall|i: int| 2 <= i < value.len() - 1 ==> value[i] != '}' && !break_key(#[trigger] value[i])
 }
 pub enum EV { Single(Seq<char>), Multi(Seq<Seq<char>>), None }
 pub open spec fn expand_spec(value: Seq<char>, vars: Map<String, String>) -> EV {
-    let (vs, single) = xfinish(xscan(value, 0, xinit(), vars));
-    if vs.len() == 0 { if single { EV::None } else { EV::Multi(Seq::empty()) } }
-    else if single { EV::Single(vs) }
+    let vs = xfinish(xscan(value, 0, xinit(), vars));
+    let spread = spread_form(value);
+    if vs.len() == 0 { if !spread { EV::None } else { EV::Multi(Seq::empty()) } }
+    else if !spread { EV::Single(vs) }
     else { match args_spec(vs, 0, true) { Ok(a) => if a.len() == 0 { EV::None } else { EV::Multi(a) }, Err(_) => EV::None } }
 }
 /// what one written argument contributes to the received argument list
